@@ -34,16 +34,16 @@ CHECKS = {
  "C10": ("exploration", "5.C10", "histories over RSA/ECDSA/Ed25519 keys with add-hardware-certificate, raw forward and extension relays, under upstream faults at any request index (failure reply, empty / garbage / truncated / wrong-type / oversized reply, connection closed before / in / after a reply) and construction failures through the real shimagent.New on a unix socket; faulted call may fail but never panics, upstream damage must be explainable, still-valid in-memory certificates survive transient faults, relays are byte-exact, signatures verify under the certified key",
          "the unix socket of the construction scenarios is a real kernel object (strict request/response, not scheduled); sampling",
          "deterministic simulation: upstream fault injection + reference model"),
- "C13": ("exploration", "5.C13", "operation sequences through the real yubiagent client over a chunked duplex transport (1-byte reads, split writes) to ServeAgent serving a recording stub with scripted results and failures; arguments recorded by the served agent and results seen by the caller must be byte-identical; slot operations run against the concrete server (hook) with a stub PIV tool whose output is generated (short / truncated 'Slot' lines, empty output, non-zero exit) and against a remote-mode server",
+ "C13": ("exploration", "5.C13", "operation sequences through the real yubiagent client over a chunked duplex transport (1-byte reads, split writes) to ServeAgent serving a recording stub with scripted results and failures; arguments recorded by the served agent and results seen by the caller must be byte-identical; slot operations run against the concrete server (hook) with a stub PIV tool whose output is generated (short / truncated 'Slot' lines, CRLF line ends, lines above 64 KiB, empty output, non-zero exit) and against a remote-mode server; sessions run inside a bubble so that an operation that never completes is detected exactly",
          "error texts '' and 'SUCCESS' are excluded (protocol-inherent ambiguity); the PIV tool is a real child process; sampling",
          "deterministic simulation: chunked transport + recording served agent"),
- "C17": ("exploration", "5.C17", "the real crypki.Signer (gRPC, TLS, retry interceptor, back-off) against 0..4 simulated endpoints (real grpc.Server over in-memory listeners) inside a bubble: dial refused / stalled / slow / cut mid-RPC, scripted replies per attempt (any status code, stalled handler, unparsable or empty key material, 0..3 certificates and comment shapes); endpoints contacted in order, request unmodified, result = first successful reply, exhaustion and empty lists are errors, retry gaps within [0, 18 s] of simulated time; plus direct evaluation of the back-off for seeded configurations and attempt numbers up to 2^32-1 at several simulated instants",
+ "C17": ("exploration", "5.C17", "the real crypki.Signer (gRPC, TLS, retry interceptor, back-off) against 0..4 simulated endpoints (real grpc.Server over in-memory listeners) inside a bubble: dial refused / stalled / slow / cut mid-RPC, scripted replies per attempt (any status code, stalled handler, unparsable or empty key material, 0..3 certificates and comment shapes); endpoints contacted in order, request unmodified, result = first successful reply, exhaustion and empty lists are errors, retry gaps within [0, 18 s] of simulated time, Sign returns within the simulated time the configured retries / per-try timeouts / maximal back-off allow; plus direct evaluation of the back-off for seeded configurations and attempt numbers up to 2^32-1 at several simulated instants",
          "crypki.NewSigner is built outside the bubble (its certificate reloader never stops); which status codes are retried is not asserted (endpoints that succeed only on a retry are 'maybe'); sampling",
          "deterministic simulation: simulated network with fault injection under a simulated clock"),
  "C18": ("exploration", "5.C18", "as C17 with impostor endpoints in every position: certificates from a foreign CA, self-signed, expired / not yet valid in simulated time, valid for another name, servers offering only TLS <= 1.1, servers that require / request / ignore client certificates, CA bundles of 1..3 files; no CSR may ever reach an impostor's handler, the reply of an impostor is never returned, a later genuine endpoint is still used, genuine servers observe exactly the configured client certificate over TLS >= 1.2",
-         "real crypto/tls and crypto/x509 on both sides; sampling",
+         "real crypto/tls and crypto/x509 on both sides; the process-wide system trust store holds the CA of the foreign-CA impostors so that trusting more than the configured files is observable; sampling",
          "deterministic simulation: impostor servers on a simulated network"),
- "C11": ("exploration", "5.C11", "2..16 client tasks x 1..6 operations (list / signers / sign / add / remove / remove-all / add-hardware-certificate / lock / unlock / extension / raw forward / sign through a handed-out signer) on one shared shim over the reference agent, every lock operation and every transport read/write being a scheduling point of the seeded token scheduler (random walk, PCT, bounded pre-emption), built with -race: (1) no race detector report whose two accessing functions are code under test - the scheduler is invisible to the detector, so a serialised run reports exactly the accesses not ordered by the code's own locks; (2) transport discipline on the upstream connection (each request frame from one task, each reply read by its requester); (3) replies carry the caller's own tag; (4) no deadlock within the step cap; (5) the recorded history plus the final upstream snapshot is linearizable against the sequential shim model (porcupine)",
+ "C11": ("exploration", "5.C11", "2..16 client tasks x 1..6 operations (list / signers / sign / add / remove / remove-all / add-hardware-certificate / lock / unlock / extension / raw forward / sign through a handed-out signer) on one shared shim over the reference agent (directly, or - 30 % of the plans - each client through its own yubiagent client and a ServeAgent task per connection), every lock operation and every transport read/write being a scheduling point of the seeded token scheduler (random walk, PCT, bounded pre-emption), built with -race: (1) no race detector report whose two accessing functions are code under test - the scheduler is invisible to the detector, so a serialised run reports exactly the accesses not ordered by the code's own locks; (2) transport discipline on the upstream connection (each request frame from one task, each reply read by its requester); (3) replies carry the caller's own tag; (4) no deadlock within the step cap (a process crash is a violation too); (5) the recorded history plus the final upstream snapshot is linearizable against the sequential shim model (porcupine)",
          "sync is replaced by the scheduler-aware simsync in agent/shimagent, agent/yubiagent (build overlay) and in a copy of x/crypto's agent client; goroutines started by code under test would run unscheduled (none today); fmt/sync.Pool inside the code under test can add happens-before edges that hide a race in some schedules; porcupine Unknown (timeout) is counted, never reported; sampling of schedules",
          "deterministic simulation: seeded schedule exploration with race-detector, transport and linearizability oracles"),
  "C20": ("exploration", "5.C20", "1..8 waiters (through the real yubiagent client -> ServeAgent -> concrete server, and direct Server.Wait callers) on equal and different codes 0..255 and requester connections sending requests with matching and non-matching codes, under the token scheduler: a waiter released during the run must have had a request with its code in flight after it registered; at every quiescent point (all tasks blocked) a still parked waiter must not have been preceded by a later request with its code; codes outside the table return without parking; no panic, no deadlock",
